@@ -204,9 +204,24 @@ def node_weights(n):
 
 
 @st.composite
-def link_attr(draw, n, directed=False, lo=1, hi=20, denom=4.0):
+def node_weights_wide(draw, n):
+    """Positive weights of any magnitude and precision: the dyadic k/8 grid,
+    k/7 (not exactly representable, neither in float32), and either of them
+    times a common factor 1e-6 .. 1e6 (areas as fractions of the sphere,
+    populations ...)."""
+    base = draw(st.lists(st.integers(1, 40), min_size=n, max_size=n))
+    den = draw(st.sampled_from([8.0, 8.0, 7.0]))
+    scale = draw(st.sampled_from([1.0, 1.0, 1.0, 1e-6, 1e-3, 1e3, 1e6]))
+    return [k / den * scale for k in base]
+
+
+@st.composite
+def link_attr(draw, n, directed=False, lo=1, hi=20, denom=None):
     """Full n x n positive matrix (symmetric when undirected, zero
-    diagonal) as nested lists; only entries on links matter."""
+    diagonal) as nested lists; only entries on links matter.  Values are
+    k/4 or k/7 (the latter with a full float64 mantissa)."""
+    if denom is None:
+        denom = draw(st.sampled_from([4.0, 4.0, 7.0]))
     if directed:
         vals = draw(st.lists(st.integers(lo, hi), min_size=n * n,
                              max_size=n * n))
